@@ -16,8 +16,10 @@ use crate::wl;
 const SIGMA_FILTER: [&str; 8] = ["/", "+", "#", "$", "a", "\0", "é", "𝄞"];
 const SIGMA_NAME: [&str; 8] = ["/", "+", "#", "$", "S", "a", "\0", "é"];
 
-const PREFIXES_FILTER: [&str; 14] = [
+const PREFIXES_FILTER: [&str; 22] = [
     "", "$share/", "$share/g/", "$share/g", "$share", "$shar", "$sharee/", "$SHARE/g/", "$share/é/", "$share//", "$share/+/", "$share/#/", "$share/g+/", "/$share/g/",
+    // look-alikes of the marker with one multi-byte character, and a seven-character first level
+    "éshare/", "$éhare/", "$sharé/", "$sh𝄞re/", "$shareé/", "éééééé/", "$share\u{0}/", "abcdef/",
 ];
 const PREFIXES_NAME: [&str; 5] = ["", "$share/", "$SYS/", "$sys/", "$SYS"];
 
